@@ -14,6 +14,15 @@ package mimetype
 //@ guarded MIME.children by mu
 //@ ghostfield MIME.depth int
 //@ ghostvar treeDepth int
+// orig: ghost, the registered node a returned clone was copied from (set by clone)
+//@ ghostfield MIME.orig int
+// link(x): the clone x mirrors its origin, and its parent link mirrors the origin's parent link:
+// no parent exactly when the origin is a root, otherwise a fresh clone of the origin's parent
+// carrying that parent's registered MIME string. By induction over the chain this is C02/C03's
+// "the reported ancestors are exactly the ancestors of the matched node, unparameterised".
+// copyOf(x, n): x carries the very strings of n (same backing memory, as clone copies headers)
+//@ spec copyOf(x, n) = sameSlice(MIME(x).extension, MIME(n).extension) && sameSlice(MIME(x).aliases, MIME(n).aliases) && MIME(x).detector == nil && len(MIME(x).children) == 0
+//@ spec link(x) = isNode(MIME(x).orig) && allocated(MIME(MIME(x).orig)) && copyOf(x, MIME(x).orig) && ite(MIME(MIME(x).orig).parent == nil, MIME(x).parent == nil, MIME(x).parent != nil && fresh(MIME(x).parent) && MIME(MIME(x).parent.orig) == MIME(MIME(x).orig).parent && sameSlice(MIME(x).parent.mime, MIME(MIME(x).orig).parent.mime))
 
 //@ spec isNode(r) = MIME(r).detector != nil
 //@ spec nodeOK(r) = 0 <= MIME(r).depth && MIME(r).depth <= treeDepth && (MIME(r).parent != nil ==> existing(MIME(r).parent) && isNode(MIME(r).parent) && MIME(r).depth == MIME(r).parent.depth + 1) && (MIME(r).parent == nil ==> MIME(r).depth == 0) && (forall i :: 0 <= i && i < len(MIME(r).children) ==> existing(MIME(r).children[i]) && isNode(MIME(r).children[i]) && MIME(r).children[i].parent == MIME(r))
@@ -57,6 +66,10 @@ package mimetype
 //@   ensures [C02_clone_fields] result.extension == m.extension && result.aliases == m.aliases
 //@   ensures [C02_clone_mime] len(ps) == 0 ==> result.mime == m.mime
 //@   ensures [C02_clone_format] len(ps) > 0 ==> result.mime == formatMedia(m.mime, ps)
+//@   ghost return: result.orig = m
+//@   ensures [C03_orig] MIME(result.orig) == m
+//@   ensures [C03_one] forall x :: fresh(MIME(x)) ==> MIME(x) == result
+//@   ensures [C02_clone_same] sameSlice(result.extension, m.extension) && sameSlice(result.aliases, m.aliases) && (len(ps) == 0 ==> sameSlice(result.mime, m.mime))
 
 //@ func mimetype.(*MIME).cloneHierarchy
 //@   requires held(R)
@@ -67,6 +80,9 @@ package mimetype
 //@   ensures [C02_clone_mime] len(ps) == 0 ==> result.mime == m.mime
 //@   ensures [C03_parent] m.parent == nil ==> result.parent == nil
 //@   ensures [C03_parent2] m.parent != nil ==> result.parent != nil && fresh(result.parent) && mirrors(result.parent, m.parent) && result.parent.mime == m.parent.mime
+//@   ensures [C03_orig] MIME(result.orig) == m
+//@   ensures [C02C03_chain] forall x :: fresh(MIME(x)) ==> link(x)
+//@   loop 1 invariant [C02C03_chain_inv] MIME(ret.orig) == m && (forall x :: fresh(MIME(x)) ==> isNode(MIME(x).orig) && allocated(MIME(MIME(x).orig)) && copyOf(x, MIME(x).orig) && (MIME(x) != ret ==> sameSlice(MIME(x).mime, MIME(MIME(x).orig).mime)) && ite(MIME(x) == lastChild, MIME(x).parent == nil && p == MIME(MIME(x).orig).parent, MIME(x).parent != nil && fresh(MIME(x).parent) && MIME(x).parent != ret && MIME(MIME(x).parent.orig) == MIME(MIME(x).orig).parent))
 //@   loop 1 invariant [C03_ret] mirrors(ret, m) && (len(ps) == 0 ==> ret.mime == m.mime)
 //@   loop 1 invariant [C03_chain0] ret == lastChild ==> p == m.parent && ret.parent == nil
 //@   loop 1 invariant [C03_chain1] ret != lastChild ==> m.parent != nil && ret.parent != nil && fresh(ret.parent) && ret.parent != ret
@@ -93,6 +109,8 @@ package mimetype
 //@   ensures result != nil && fresh(result)
 //@   ensures TI()
 //@   ensures [C03_leaf] mirrors(result, leaf(m, in, readLimit))
+//@   ensures [C03_orig] MIME(result.orig) == MIME(leaf(m, in, readLimit))
+//@   ensures [C02C03_chain] forall x :: fresh(MIME(x)) ==> link(x)
 //@   ensures [C03_leaf_node] allocated(MIME(leaf(m, in, readLimit))) && isNode(leaf(m, in, readLimit))
 //@   ensures [C02_mime] result.mime == MIME(leaf(m, in, readLimit)).mime || MIME(leaf(m, in, readLimit)).mime == "text/plain" || MIME(leaf(m, in, readLimit)).mime == "text/html" || MIME(leaf(m, in, readLimit)).mime == "text/xml"
 //@   ensures [C03_parent] MIME(leaf(m, in, readLimit)).parent == nil ==> result.parent == nil
@@ -148,12 +166,17 @@ package mimetype
 //@   ensures result != nil
 //@   ensures [C03C04_detect_cut] old(readLimit) > 0 && len(in) > old(readLimit) ==> mirrors(result, leaf(root, in[:old(readLimit)], old(readLimit)))
 //@   ensures [C03C04_detect_whole] !(old(readLimit) > 0 && len(in) > old(readLimit)) ==> mirrors(result, leaf(root, in, old(readLimit)))
+//@   ensures [C03_orig_cut] old(readLimit) > 0 && len(in) > old(readLimit) ==> MIME(result.orig) == MIME(leaf(root, in[:old(readLimit)], old(readLimit)))
+//@   ensures [C03_orig_whole] !(old(readLimit) > 0 && len(in) > old(readLimit)) ==> MIME(result.orig) == MIME(leaf(root, in, old(readLimit)))
+//@   ensures [C02C03_chain] fresh(result) && (forall x :: fresh(MIME(x)) ==> link(x))
 
 // reader_used / reader_n / reader_err: ghost record of what io.ReadFull / io.ReadAll took from the
 // reader in this call (set by their assumed contracts).
 //@ ghostvar reader_used int
 //@ ghostvar reader_n int
 //@ ghostvar reader_err int
+// readBytes: ghost, the bytes DetectReader obtained from the reader in this call
+//@ ghostvar readBytes bytes
 //@ spec readFailed() = reader_err != 0 && reader_err != ioEOF() && reader_err != ioUnexpectedEOF()
 
 //@ func mimetype.DetectReader
@@ -166,11 +189,20 @@ package mimetype
 //@   ensures [C05_surface] readFailed() ==> result0 == errMIME && errid(result1) == reader_err
 //@   ensures [C05_noerr] !readFailed() ==> result1 == nil
 //@   ensures [C03C05_same_walk] result1 == nil ==> len(readBytes) == reader_n && mirrors(result0, leaf(root, readBytes, old(readLimit)))
+//@   ensures [C03C05_orig] result1 == nil ==> MIME(result0.orig) == MIME(leaf(root, readBytes, old(readLimit)))
+//@   ensures [C02C03_chain] result1 == nil ==> fresh(result0) && (forall x :: fresh(MIME(x)) ==> link(x))
 
+// file_opened: ghost, os.Open succeeded in this call (set by its assumed contract)
 //@ func mimetype.DetectFile
 //@   requires TI()
+//@   ghost entry: reader_err = 0
 //@   ensures result0 != nil
 //@   ensures [C02C05_err] result1 != nil ==> result0 == errMIME
+//@   ensures [C05_file_limit] old(readLimit) > 0 ==> reader_used - old(reader_used) <= old(readLimit)
+//@   ensures [C05_file_surface] readFailed() ==> result0 == errMIME && errid(result1) == reader_err
+//@   ensures [C05_file_same_walk] result1 == nil ==> len(readBytes) == reader_n && mirrors(result0, leaf(root, readBytes, old(readLimit)))
+//@   ensures [C03C05_file_orig] result1 == nil ==> MIME(result0.orig) == MIME(leaf(root, readBytes, old(readLimit)))
+//@   ensures [C02C03_file_chain] result1 == nil ==> fresh(result0) && (forall x :: fresh(MIME(x)) ==> link(x))
 
 // facts about the built-in tree, checked on the concretely executed package initialiser
 //@ func mimetype.init
